@@ -1,0 +1,12 @@
+//go:build verif
+
+package interpreter
+
+// Verification hook (build tag `verif`), see runtime/verif_on.go.
+var VerifHook func(ev string, n int64)
+
+func vh(ev string, n int64) {
+	if h := VerifHook; h != nil {
+		h(ev, n)
+	}
+}
